@@ -497,6 +497,12 @@ func playScript(o *ndjson, sc abScript, seed int64, refFirst bool) (obj, error) 
 					return
 				}
 				a.aggOf[[2]int{num(op[1]), num(op[2])}] = &agg
+			case "PE": // ["PE", v, k, parent v, parent k]: a proposal that carries an empty aggregate QC (no certificates, no signature)
+				if !a.propose(num(op[1]), num(op[2]), [2]int{num(op[3]), num(op[4])}) {
+					status, at = "unrealisable", i-nPrefix
+					return
+				}
+				a.aggOf[[2]int{num(op[1]), num(op[2])}] = &hotstuff.AggregateQC{}
 			case "V":
 				voted, ok := a.vote(num(op[1]), num(op[2]), num(op[3]))
 				if !ok {
